@@ -564,7 +564,7 @@ class Executor(object):
         node = self.node
         cid = c.get_id()
         if cid in self.pc_ids:
-            return self.pc_ids[cid]
+            return self.pc_ids[cid][1]
         if node.feas is None:
             # one side may already be witnessed by the cached model of the path condition
             ft = ff = None
@@ -608,7 +608,7 @@ class Executor(object):
                             self._model = None
                     except z3.Z3Exception:
                         self._model = None
-            self.pc_ids[cid] = (side == 0)
+            self.pc_ids[cid] = (c, side == 0)     # keeps c alive: z3 reuses ids of dead ASTs
             self.trail.append((node, side))
             self.node = kid
             return side == 0
